@@ -15,9 +15,9 @@
 //!   cast <tag> <ty>                  try_cast::<ty>; Ok: value+header taken, rendered, dropped
 //!   content <tag> <ty>               try_content::<ty>     | contentmut <tag> <ty> (read only)
 //!   cancast <tag> <ty> | len <tag> | drop <tag>
-//! Values are terms over  U  P<size>:<n>  S<hex>  F<size>:<n>  N  J(v)  K(v)  E(v)  B(v)  L[v,..]
-//! T(v,..)  R{v,..}  V<k>{v,..}  (unit, primitive, string, fixed-size opaque, None, Some, Ok, Err,
-//! Box, sequence, tuple, derived struct, derived enum variant k) — the same universe as the Lean
+//! Values are terms over  U  P<size>:<n>  S<hex>  F<size>:<n>  N  J(v)  K(v)  E(v)  B(v)  [v,..]
+//! A[v,..]  T(v,..)  R{v,..}  V<k>{v,..}  (unit, primitive, string, fixed-size opaque, None, Some, Ok,
+//! Err, Box, sequence, fixed-size array, tuple, derived struct, derived enum variant k) — the same universe as the Lean
 //! model's `MB.Val`.
 //! Transcript: `<line> -> <answer> i=<instances> d=<drops>`; `end i= d= multi= leaked=`.
 #![allow(dead_code)]
@@ -26,7 +26,7 @@ use crate::util::{cases, guarded};
 use des::net::message::Body;
 use des::prelude::*;
 use std::cell::RefCell;
-use std::collections::{BTreeMap, VecDeque};
+use std::collections::{BTreeMap, BTreeSet, BinaryHeap, HashMap, HashSet, LinkedList, VecDeque};
 use std::fmt::Write;
 use std::time::Duration;
 
@@ -44,6 +44,7 @@ pub enum V {
     E(Box<V>),
     B(Box<V>),
     L(Vec<V>),
+    A(Vec<V>),
     T(Vec<V>),
     R(Vec<V>),
     En(usize, Vec<V>),
@@ -93,6 +94,10 @@ impl V {
                 o.push(')');
             }
             V::L(vs) => list(o, vs, '[', ']'),
+            V::A(vs) => {
+                o.push('A');
+                list(o, vs, '[', ']')
+            }
             V::T(vs) => {
                 o.push('T');
                 list(o, vs, '(', ')')
@@ -193,6 +198,7 @@ impl V {
                             _ => V::B(v),
                         })
                     }
+                    b'A' => Some(V::A(Self::plist(b, i, b'[', b']')?)),
                     b'T' => Some(V::T(Self::plist(b, i, b'(', b')')?)),
                     b'R' => Some(V::R(Self::plist(b, i, b'{', b'}')?)),
                     b'V' => {
@@ -337,6 +343,22 @@ pub struct Nest {
     r: Result<(), String>,
 }
 
+/// derived struct with fixed-size array fields whose elements have value-dependent lengths
+#[derive(Debug, Clone, MessageBody)]
+pub struct Sa {
+    a: [String; 2],
+    b: [Option<u16>; 3],
+    tr: Tr,
+}
+
+/// derived enum whose variants carry arrays
+#[derive(Debug, Clone, MessageBody)]
+pub enum Ea {
+    U([Vec<u8>; 2], u8),
+    N { x: [String; 2], o: [Option<Box<String>>; 2] },
+    E([String; 0]),
+}
+
 pub trait Fam: Sized + 'static {
     fn from_v(v: &V) -> Option<Self>;
     fn to_v(&self) -> V;
@@ -356,7 +378,7 @@ macro_rules! fam_int {
         }
     )*};
 }
-fam_int!(u8, u16, u32, u64, i32);
+fam_int!(u8, u16, u32, u64, u128, usize, i8, i16, i32, i64, i128, isize);
 
 impl Fam for f32 {
     fn from_v(v: &V) -> Option<Self> {
@@ -457,28 +479,21 @@ impl Fam for &'static str {
         *r.pick(&["", "x", "Hello World", "Hello World😀", "äöü"])
     }
 }
-impl<const N: usize> Fam for [u8; N] {
+impl<T: Fam, const N: usize> Fam for [T; N] {
     fn from_v(v: &V) -> Option<Self> {
         match v {
-            V::L(xs) if xs.len() == N => {
-                let mut out = [0u8; N];
-                for (i, x) in xs.iter().enumerate() {
-                    out[i] = u8::from_v(x)?;
-                }
-                Some(out)
+            V::A(xs) if xs.len() == N => {
+                let items: Option<Vec<T>> = xs.iter().map(T::from_v).collect();
+                <[T; N]>::try_from(items?).ok()
             }
             _ => None,
         }
     }
     fn to_v(&self) -> V {
-        V::L(self.iter().map(Fam::to_v).collect())
+        V::A(self.iter().map(Fam::to_v).collect())
     }
     fn arb(r: &mut Rng) -> Self {
-        let mut out = [0u8; N];
-        for x in out.iter_mut() {
-            *x = u8::arb(r);
-        }
-        out
+        std::array::from_fn(|_| T::arb(r))
     }
 }
 fn arb_len(r: &mut Rng) -> u64 {
@@ -548,6 +563,86 @@ impl<K: Fam + Ord, X: Fam> Fam for BTreeMap<K, X> {
         (0..arb_len(r)).map(|_| (K::arb(r), X::arb(r))).collect()
     }
 }
+impl<T: Fam> Fam for LinkedList<T> {
+    fn from_v(v: &V) -> Option<Self> {
+        Vec::<T>::from_v(v).map(|x| x.into_iter().collect())
+    }
+    fn to_v(&self) -> V {
+        V::L(self.iter().map(Fam::to_v).collect())
+    }
+    fn arb(r: &mut Rng) -> Self {
+        Vec::<T>::arb(r).into_iter().collect()
+    }
+}
+impl<T: Fam> Fam for &'static [T] {
+    fn from_v(v: &V) -> Option<Self> {
+        Vec::<T>::from_v(v).map(|x| &*Box::leak(x.into_boxed_slice()))
+    }
+    fn to_v(&self) -> V {
+        V::L(self.iter().map(Fam::to_v).collect())
+    }
+    fn arb(r: &mut Rng) -> Self {
+        &*Box::leak(Vec::<T>::arb(r).into_boxed_slice())
+    }
+}
+/// hash maps / sets / heaps are rendered sorted (their iteration order is not observable in a sum)
+impl<K: Fam + Ord + std::hash::Hash + Eq, X: Fam> Fam for HashMap<K, X> {
+    fn from_v(v: &V) -> Option<Self> {
+        BTreeMap::<K, X>::from_v(v).map(|m| m.into_iter().collect())
+    }
+    fn to_v(&self) -> V {
+        let mut kv: Vec<(&K, &X)> = self.iter().collect();
+        kv.sort_by(|a, b| a.0.cmp(b.0));
+        V::L(kv.into_iter().map(|(k, x)| V::T(vec![k.to_v(), x.to_v()])).collect())
+    }
+    fn arb(r: &mut Rng) -> Self {
+        BTreeMap::<K, X>::arb(r).into_iter().collect()
+    }
+}
+impl<T: Fam + Ord> Fam for BTreeSet<T> {
+    fn from_v(v: &V) -> Option<Self> {
+        let xs = Vec::<T>::from_v(v)?;
+        let n = xs.len();
+        let set: BTreeSet<T> = xs.into_iter().collect();
+        if set.len() == n {
+            Some(set)
+        } else {
+            None
+        }
+    }
+    fn to_v(&self) -> V {
+        V::L(self.iter().map(Fam::to_v).collect())
+    }
+    fn arb(r: &mut Rng) -> Self {
+        Vec::<T>::arb(r).into_iter().collect()
+    }
+}
+impl<T: Fam + Ord + std::hash::Hash> Fam for HashSet<T> {
+    fn from_v(v: &V) -> Option<Self> {
+        BTreeSet::<T>::from_v(v).map(|x| x.into_iter().collect())
+    }
+    fn to_v(&self) -> V {
+        let mut xs: Vec<&T> = self.iter().collect();
+        xs.sort();
+        V::L(xs.into_iter().map(Fam::to_v).collect())
+    }
+    fn arb(r: &mut Rng) -> Self {
+        Vec::<T>::arb(r).into_iter().collect()
+    }
+}
+impl<T: Fam + Ord> Fam for BinaryHeap<T> {
+    fn from_v(v: &V) -> Option<Self> {
+        Vec::<T>::from_v(v).map(|x| x.into_iter().collect())
+    }
+    fn to_v(&self) -> V {
+        let mut xs: Vec<&T> = self.iter().collect();
+        xs.sort();
+        V::L(xs.into_iter().map(Fam::to_v).collect())
+    }
+    fn arb(r: &mut Rng) -> Self {
+        Vec::<T>::arb(r).into_iter().collect()
+    }
+}
 impl<T: Fam> Fam for Option<T> {
     fn from_v(v: &V) -> Option<Self> {
         match v {
@@ -592,20 +687,29 @@ impl<T: Fam, E: Fam> Fam for Result<T, E> {
         }
     }
 }
-impl<A: Fam, B: Fam> Fam for (A, B) {
-    fn from_v(v: &V) -> Option<Self> {
-        match v {
-            V::T(xs) if xs.len() == 2 => Some((A::from_v(&xs[0])?, B::from_v(&xs[1])?)),
-            _ => None,
+macro_rules! fam_tuple {
+    ($n:expr; $($name:ident : $idx:tt),+) => {
+        impl<$($name: Fam),+> Fam for ($($name,)+) {
+            fn from_v(v: &V) -> Option<Self> {
+                match v {
+                    V::T(xs) if xs.len() == $n => Some(($($name::from_v(&xs[$idx])?,)+)),
+                    _ => None,
+                }
+            }
+            fn to_v(&self) -> V {
+                V::T(vec![$(self.$idx.to_v()),+])
+            }
+            fn arb(r: &mut Rng) -> Self {
+                ($($name::arb(r),)+)
+            }
         }
-    }
-    fn to_v(&self) -> V {
-        V::T(vec![self.0.to_v(), self.1.to_v()])
-    }
-    fn arb(r: &mut Rng) -> Self {
-        (A::arb(r), B::arb(r))
-    }
+    };
 }
+fam_tuple!(1; A:0);
+fam_tuple!(2; A:0, B:1);
+fam_tuple!(3; A:0, B:1, C:2);
+fam_tuple!(7; A:0, B:1, C:2, D:3, E:4, F:5, G:6);
+fam_tuple!(10; A:0, B:1, C:2, D:3, E:4, F:5, G:6, H:7, I:8, J:9);
 impl<T: Fam> Fam for Box<T> {
     fn from_v(v: &V) -> Option<Self> {
         match v {
@@ -632,6 +736,115 @@ impl Fam for Ipv4Addr {
     }
     fn arb(r: &mut Rng) -> Self {
         Ipv4Addr::from(u32::arb(r))
+    }
+}
+impl Fam for Ipv6Addr {
+    fn from_v(v: &V) -> Option<Self> {
+        match v {
+            V::F(16, n) => Some(Ipv6Addr::from(*n)),
+            _ => None,
+        }
+    }
+    fn to_v(&self) -> V {
+        V::F(16, u128::from(*self))
+    }
+    fn arb(r: &mut Rng) -> Self {
+        Ipv6Addr::from(u128::arb(r))
+    }
+}
+/// `IpAddr`: `match self { V4(v4) => v4.byte_len(), V6(v6) => v6.byte_len() }`
+impl Fam for IpAddr {
+    fn from_v(v: &V) -> Option<Self> {
+        match v {
+            V::En(0, xs) if xs.len() == 1 => Some(IpAddr::V4(Fam::from_v(&xs[0])?)),
+            V::En(1, xs) if xs.len() == 1 => Some(IpAddr::V6(Fam::from_v(&xs[0])?)),
+            _ => None,
+        }
+    }
+    fn to_v(&self) -> V {
+        match self {
+            IpAddr::V4(a) => V::En(0, vec![a.to_v()]),
+            IpAddr::V6(a) => V::En(1, vec![a.to_v()]),
+        }
+    }
+    fn arb(r: &mut Rng) -> Self {
+        if r.chance(1, 2) {
+            IpAddr::V4(Fam::arb(r))
+        } else {
+            IpAddr::V6(Fam::arb(r))
+        }
+    }
+}
+fn port_of(v: &V) -> Option<u16> {
+    match v {
+        V::F(2, n) => Some(*n as u16),
+        _ => None,
+    }
+}
+/// `SocketAddrV4`: `4 + 2`, rendered as the pair (address, port)
+impl Fam for SocketAddrV4 {
+    fn from_v(v: &V) -> Option<Self> {
+        match v {
+            V::T(xs) if xs.len() == 2 => Some(SocketAddrV4::new(Fam::from_v(&xs[0])?, port_of(&xs[1])?)),
+            _ => None,
+        }
+    }
+    fn to_v(&self) -> V {
+        V::T(vec![self.ip().to_v(), V::F(2, self.port() as u128)])
+    }
+    fn arb(r: &mut Rng) -> Self {
+        SocketAddrV4::new(Fam::arb(r), u16::arb(r))
+    }
+}
+/// `SocketAddrV6`: `16 + 2` (flowinfo / scope id fixed to 0)
+impl Fam for SocketAddrV6 {
+    fn from_v(v: &V) -> Option<Self> {
+        match v {
+            V::T(xs) if xs.len() == 2 => Some(SocketAddrV6::new(Fam::from_v(&xs[0])?, port_of(&xs[1])?, 0, 0)),
+            _ => None,
+        }
+    }
+    fn to_v(&self) -> V {
+        V::T(vec![self.ip().to_v(), V::F(2, self.port() as u128)])
+    }
+    fn arb(r: &mut Rng) -> Self {
+        SocketAddrV6::new(Fam::arb(r), u16::arb(r), 0, 0)
+    }
+}
+impl Fam for SocketAddr {
+    fn from_v(v: &V) -> Option<Self> {
+        match v {
+            V::En(0, xs) if xs.len() == 1 => Some(SocketAddr::V4(Fam::from_v(&xs[0])?)),
+            V::En(1, xs) if xs.len() == 1 => Some(SocketAddr::V6(Fam::from_v(&xs[0])?)),
+            _ => None,
+        }
+    }
+    fn to_v(&self) -> V {
+        match self {
+            SocketAddr::V4(a) => V::En(0, vec![a.to_v()]),
+            SocketAddr::V6(a) => V::En(1, vec![a.to_v()]),
+        }
+    }
+    fn arb(r: &mut Rng) -> Self {
+        if r.chance(1, 2) {
+            SocketAddr::V4(Fam::arb(r))
+        } else {
+            SocketAddr::V6(Fam::arb(r))
+        }
+    }
+}
+impl Fam for SimTime {
+    fn from_v(v: &V) -> Option<Self> {
+        match v {
+            V::F(16, _) => Duration::from_v(v).map(SimTime::from_duration),
+            _ => None,
+        }
+    }
+    fn to_v(&self) -> V {
+        V::F(16, (**self).as_nanos())
+    }
+    fn arb(r: &mut Rng) -> Self {
+        SimTime::from_duration(Duration::arb(r))
     }
 }
 impl Fam for Duration {
@@ -730,6 +943,47 @@ impl Fam for Ts {
         Ts(u8::arb(r), String::arb(r), Tr::new())
     }
 }
+impl Fam for Sa {
+    fn from_v(v: &V) -> Option<Self> {
+        match v {
+            V::R(xs) if xs.len() == 3 => {
+                let (a, b) = (Fam::from_v(&xs[0])?, Fam::from_v(&xs[1])?);
+                Some(Sa { a, b, tr: Tr::from_v(&xs[2])? })
+            }
+            _ => None,
+        }
+    }
+    fn to_v(&self) -> V {
+        V::R(vec![self.a.to_v(), self.b.to_v(), self.tr.to_v()])
+    }
+    fn arb(r: &mut Rng) -> Self {
+        Sa { a: Fam::arb(r), b: Fam::arb(r), tr: Tr::new() }
+    }
+}
+impl Fam for Ea {
+    fn from_v(v: &V) -> Option<Self> {
+        match v {
+            V::En(0, xs) if xs.len() == 2 => Some(Ea::U(Fam::from_v(&xs[0])?, Fam::from_v(&xs[1])?)),
+            V::En(1, xs) if xs.len() == 2 => Some(Ea::N { x: Fam::from_v(&xs[0])?, o: Fam::from_v(&xs[1])? }),
+            V::En(2, xs) if xs.len() == 1 => Some(Ea::E(Fam::from_v(&xs[0])?)),
+            _ => None,
+        }
+    }
+    fn to_v(&self) -> V {
+        match self {
+            Ea::U(a, b) => V::En(0, vec![a.to_v(), b.to_v()]),
+            Ea::N { x, o } => V::En(1, vec![x.to_v(), o.to_v()]),
+            Ea::E(a) => V::En(2, vec![a.to_v()]),
+        }
+    }
+    fn arb(r: &mut Rng) -> Self {
+        match r.below(5) {
+            0 | 1 => Ea::U(Fam::arb(r), Fam::arb(r)),
+            2 | 3 => Ea::N { x: Fam::arb(r), o: Fam::arb(r) },
+            _ => Ea::E([]),
+        }
+    }
+}
 impl Fam for Z {
     fn from_v(v: &V) -> Option<Self> {
         match v {
@@ -818,7 +1072,9 @@ impl Fam for Nest {
 }
 
 /// the family: name -> type.  Groups of layout-compatible types (same size and alignment):
-/// {u32 a4 f32 i32 char ncu32}, {u64 a8 f64 pt}, {str vecu8 vecstr}, {unit zst}
+/// {u32 a4 f32 i32 char ncu32}, {u64 a8 f64 pt}, {str vecu8 vecstr}, {unit zst}.
+/// Every `MessageBody` impl of body.rs has at least one representative (arrays `[T; N]` also with
+/// elements of value-dependent length: astr3 aopt4 avec2 sarr earr).
 macro_rules! with_clonable_ty {
     ($name:expr, $T:ident => $body:expr, _ => $none:expr) => {
         match $name {
@@ -853,6 +1109,30 @@ macro_rules! with_clonable_ty {
             "nest" => { type $T = W<Nest>; $body }
             "ip" => { type $T = W<Ipv4Addr>; $body }
             "dur" => { type $T = W<Duration>; $body }
+            "astr3" => { type $T = W<[String; 3]>; $body }
+            "aopt4" => { type $T = W<[Option<u32>; 4]>; $body }
+            "avec2" => { type $T = W<[Vec<u8>; 2]>; $body }
+            "sarr" => { type $T = Sa; $body }
+            "earr" => { type $T = W<Ea>; $body }
+            "ints" => { type $T = W<(u128, i128, usize, isize, i8, i16, i64)>; $body }
+            "tup1" => { type $T = W<(String,)>; $body }
+            "tup3" => { type $T = W<(String, Option<String>, Vec<String>)>; $body }
+            "tup10" => { type $T = W<(u8, String, u16, Option<u8>, u32, Vec<u8>, u64, bool, char, ())>; $body }
+            "ll" => { type $T = W<LinkedList<String>>; $body }
+            "slice" => { type $T = W<&'static [String]>; $body }
+            "hmap" => { type $T = W<HashMap<u16, String>>; $body }
+            "hset" => { type $T = W<HashSet<String>>; $body }
+            "bset" => { type $T = W<BTreeSet<String>>; $body }
+            "heap" => { type $T = W<BinaryHeap<String>>; $body }
+            "ip6" => { type $T = W<Ipv6Addr>; $body }
+            "ipaddr" => { type $T = W<IpAddr>; $body }
+            "sa4" => { type $T = W<SocketAddrV4>; $body }
+            "sa6" => { type $T = W<SocketAddrV6>; $body }
+            "sa" => { type $T = W<SocketAddr>; $body }
+            "simtime" => { type $T = W<SimTime>; $body }
+            "oo" => { type $T = W<Option<Option<String>>>; $body }
+            "res2" => { type $T = W<Result<Vec<u8>, String>>; $body }
+            "boxstr" => { type $T = W<Box<Option<String>>>; $body }
             _ => $none,
         }
     };
@@ -866,11 +1146,16 @@ macro_rules! with_ty {
     };
 }
 
-const CLONABLE: [&str; 31] = [
+const CLONABLE: [&str; 55] = [
     "u32", "a4", "f32", "i32", "char", "u64", "a8", "f64", "pt", "boxu64", "u8", "bool", "unit", "zst", "str", "sstr",
     "vecu8", "vecstr", "deq", "map", "optu32", "optstr", "res", "tup", "ts", "en", "gstr", "gu8", "nest", "ip", "dur",
+    "astr3", "aopt4", "avec2", "sarr", "earr", "ints", "tup1", "tup3", "tup10", "ll", "slice", "hmap", "hset", "bset",
+    "heap", "ip6", "ipaddr", "sa4", "sa6", "sa", "simtime", "oo", "res2", "boxstr",
 ];
-const GROUPS: [&[&str]; 5] = [
+const GROUPS: [&[&str]; 8] = [
+    &["astr3", "tup3", "sarr", "avec2"],
+    &["aopt4", "optu32", "earr", "oo", "res2"],
+    &["ll", "slice", "hmap", "hset", "bset", "heap", "vecstr", "tup1", "boxstr"],
     &["u32", "a4", "f32", "i32", "char", "ncu32"],
     &["u64", "a8", "f64", "pt", "boxu64"],
     &["str", "vecu8", "vecstr", "sstr", "deq"],
